@@ -158,6 +158,11 @@ func runHistories(r *ev.Run) {
 	if prop == "C10" {
 		variants = append(variants, chain.GenesisOptions{MinTransactBalance: 10, LastBlockFees: 7, CommonPool: 1, EpochInterval: 2}, chain.GenesisOptions{MaxValidators: 1, EpochInterval: 2, MaxBlockGas: 5})
 	}
+	if prop == "C01" {
+		// all entities tied and the validator limit cutting into the tie: any order-dependent
+		// step of the election makes replicas disagree
+		variants = append(variants, chain.GenesisOptions{Escrow: []uint64{2000, 2000, 2500}, MaxValidators: 2, EpochInterval: 2, NodeExpiration: 12})
+	}
 	if prop == "C05" && r.Thorough() {
 		variants = append(variants, chain.GenesisOptions{MinTransactBalance: 10, LastBlockFees: 7, EpochInterval: 2})
 	}
